@@ -167,8 +167,32 @@ def context_free_rule(ck, F, E):
                "; ".join("%s written in %s" % (k, ",".join(v)) for k, v in sorted(extra.items())))
 
 
+def single_text_rule(ck, F):
+    """Every offset the tokenizer reports is an offset into the one string it was given.  The tokenizer therefore holds one text:
+    a second text field (an upper-cased or otherwise normalised copy to match keywords against) has its own byte offsets --
+    `to_uppercase()` is not length-preserving -- and positions computed on it are reported against the caller's line."""
+    a = F.adt("tokenizer::Tokenizer")
+    if a is None:
+        ck.missing("C13:TEXT:single-source", "struct Tokenizer")
+        return
+    import re as _re
+    texts = [f["name"] for f in a["variants"][0]["fields"]
+             if _re.search(r"\bString\b|&'?\w* ?str\b|Vec<u8>|\[u8\]|Cow<|Box<str>|Rc<str>|Vec<char>", str(f.get("ty", ""))) and
+             f["name"] not in ("string", "string_manager")]
+    ck.require(not texts, "C13:TEXT:single-source", "ranges refer to the caller's text",
+               "Tokenizer holds no text besides the string it was given",
+               "Tokenizer keeps a second text (%s) next to the string it was given: offsets found in a transformed copy are not "
+               "offsets into the caller's line (an upper-cased copy is longer or shorter wherever case mapping changes the UTF-8 "
+               "length)" % ", ".join(texts))
+
+
 def run(ck, F, E):
     context_free_rule(ck, F, E)
+    single_text_rule(ck, F)
+    # the ranges handed to editors are per file line: the analyzer keeps exactly one token-range entry per file line on every
+    # path of its loop, or every later line is highlighted with its successor's ranges (rule shared with C05 / C15)
+    import common
+    common.map_rule(ck, F, E, "C13")
     # ---- (1)+(3) cursor writes
     n_writes = 0
     for body in F.bodies.values():
